@@ -181,7 +181,18 @@ Definition peer_step (tbl : list entry) (mtu : Z) (up : bool) (i : N) (p : peer)
          is logged and the loop continues: what the bind did not transmit is never transmitted.  (A TUN batch
          makes at most one Send call per peer: the flush of the container just staged, or one initiation.) *)
       let '(p', o) := tun_step tbl mtu i p pkts in
-      (p', if q =? i then firstn (N.to_nat k) o else o)
+      if q =? i then
+        (* an initiation the bind refused is not on the wire: nothing the remote could answer
+           (the handshake state it belonged to replaced the one of any earlier initiation) *)
+        (match o with
+         | OInit _ _ :: _ =>
+             if k =? 0
+             then {| p_ep := p_ep p'; p_sess := p_sess p'; p_hs_recent := p_hs_recent p'; p_init_out := false;
+                     p_staged := p_staged p' |}
+             else p'
+         | _ => p'
+         end, firstn (N.to_nat k) o)
+      else (p', o)
   | MtuUpdate _ => (p, [])
   | RefHs j ridx ep =>
       if j =? i then
